@@ -22,21 +22,21 @@ func accepted(N, r, p, keyLen int64) bool {
 	if uint64(r)*uint64(p) >= 1<<30 || r > maxInt/128/p || r > maxInt/256 || N > maxInt/128/r {
 		return false
 	}
-	return keyLen > 0
+	return keyLen > 0 && uint64(keyLen) <= (1<<32-1)*32
 }
 
-// tooBig: accepted and (128·r·N > 64 MiB or p·128·r > 64 MiB or 2^20 < keyLen ≤ (2^32−1)·32).
-// Beyond (2^32−1)·32 crypto/pbkdf2 refuses before allocating, so those lengths are run.
+// tooBig: accepted and (128·r·N > 64 MiB or p·128·r > 1 MiB or p·r·N > 2^18 or keyLen > 2^16).
+// Key lengths beyond (2^32−1)·32 are refused before anything is allocated, so those are run.
 func tooBig(N, r, p, keyLen int64) bool {
 	if !accepted(N, r, p, keyLen) {
 		return false
 	}
-	return 128*r*N > 1<<26 || p*128*r > 1<<26 || (keyLen > 1<<20 && keyLen <= (1<<32-1)*32)
+	return 128*r*N > 1<<26 || p*128*r > 1<<20 || p*r*N > 1<<18 || keyLen > 1<<16
 }
 
 var nSpecial = []int64{0, 1, 3, 6, -4, 5, 12, 1023, 1025, -2, -1024, 1 << 30, 1 << 31, 1 << 56, 1 << 57, 1 << 62, math.MinInt64, maxInt}
 var rpSpecial = []int64{1 << 29, 1 << 30, 1 << 31, 1 << 32, 1 << 33, 1 << 25, 1 << 26, 1 << 62, maxInt/128 - 1, maxInt / 128, maxInt/128 + 1,
-	maxInt / 256, maxInt/256 + 1, maxInt, math.MinInt64, 1<<30 - 1, 1 << 15, 1 << 14}
+	maxInt / 256, maxInt/256 + 1, maxInt, math.MinInt64, 1<<30 - 1, 64, 128, 1024}
 var keyLenSpecial = []int64{1 << 38, maxInt - 32, maxInt - 31, maxInt, (1<<32-1)*32 + 1, math.MinInt64, 1 << 62}
 
 func gen(g *hx.Gen) {
